@@ -22,6 +22,7 @@ def step (st : DState) (line : String) : DState × String :=
   | "tv" :: rest => (st, Drv.PyT.handle rest)
   | "mk" :: rest => (st, Drv.Markup.handle rest)
   | "rp" :: rest => (st, Drv.Replace.handle rest)
+  | "pp" :: rest => (st, Drv.Pretty.handle rest)
   | "row" :: "trav" :: rest => (st, Drv.Row.handleTrav st.row rest)
   | "row" :: rest => let (r, o) := Drv.Row.handle st.row rest; ({ st with row := r }, o)
   | "tbl" :: "x" :: rest =>
